@@ -315,3 +315,16 @@ Proof.
     rewrite (read_frame_async_known TBiRemote true _ rest t Hwf2); [|unfold len, max_parse_payload; cbn; lia].
     reflexivity.
 Qed.
+
+(* ---------- the client's session stream: nothing after the response is lost on the hand-off ---------- *)
+Theorem client_rest_after_response payload rest t : len payload <= max_parse_payload ->
+  client_session_rest (frame_write (mkframe KHeaders payload None) ++ rest) t = Some rest.
+Proof.
+  intros Hl. unfold client_session_rest. unfold fuel_for at 1. cbn [response_first_frame].
+  rewrite (read_frame_async_known TSession false (mkframe KHeaders payload None) rest t eq_refl Hl).
+  reflexivity.
+Qed.
+
+Theorem client_established_after_response payload rest t : len payload <= max_parse_payload ->
+  client_established_run (frame_write (mkframe KHeaders payload None) ++ rest) t = connect_run 64 rest t.
+Proof. intros Hl. unfold client_established_run. rewrite client_rest_after_response by exact Hl. reflexivity. Qed.
